@@ -25,7 +25,7 @@ LIST_PATTERNS = [
 OBJ_SOURCES = ['{}', '{"a": @h10@}', '{"a": @h10@, "b": @h11@}', '{"a": @h10@, "b": @h11@, "c": @h12@}', '{"b": @h11@, "c": @h12@, "d": @h13@, "a": @h10@}',
                '{"a": [@h10@, @h11@], "b": {"c": @h12@}}', '{"a": {"b": @h11@}, "b": [@h12@]}', '[1, 2]', 'null', '"s"', '{"A": @h10@, "": @h11@, " x": @h12@}', '{"_": @h10@, "a": @h11@}']
 OBJ_PATTERNS = ['{a}', '{a, b}', '{"a": x}', '{"a": x, "b": y}', '{"a": b, "b": a}', '{a, ..r}', '{..r}', '{a, "b": _, ..r}', '{"a": [x, y]}', '{"a": [x, ..r], "b": {c}}',
-                '{a, "a": x}', '{a, "b": a}', '{"a": {b}}', '{"b": {"c": x}, ..r}', '{a, ..r, b}', '{"A": x, "": y, " x": z}', '{a, ..a}', '{"_": x, ..r}', '{"_": _, a}']
+                '{a, "a": x}', '{a, "b": a}', '{"a": {b}}', '{"b": {"c": x}, ..r}', '{a, ..r, b}', '{"A": x, "": y, " x": z}', '{a, ..a}', '{"_": x, ..r}', '{"_": _, a}', '{a, "a": x, ..r}', '{"a": x, "a": [y, z]}', '{"a": x, "a": y, ..r}']
 
 def names_of(pat):
     ns = []
@@ -97,6 +97,7 @@ def templates(tier, seed=0):
         lad.append(('if' if i == 0 else '} else if') + ' s == %d {' % i); lad += ['    ' + l for l in b.split('\n')]
     lad.append('}')
     ts.append({'name': 'misplaced', 'src': '\n'.join(['s := @h0@', 'xs := [1]'] + lad + ['print(9)']) + '\n', 'assume': lambda v: [v['h0'] >= 0, v['h0'] <= len(bads)]})
+    ts.append({'name': 'param-underscores', 'src': 'fn f(_, b, _) {\n    return b\n}\nprint(f(1, @h10@, 3))\nfn g([_, _, c], .._) {\n    return c\n}\nprint(g([1, 2, @h11@], 4, 5))\nh := fn (_, _) {\n    return 1\n}\nprint(h(0, 0))\n'})
     # spread / collect in a place where the grammar has no room for it: rejected before anything runs (one program each)
     cands = ['print(g(..xs))', 'print(g(1, ..xs))', '[..a, b] := [1, 2]', 'x := [1, ..xs, 2]', 'x := [..xs, 1]', 'x := {..o, "a": 1}', 'x := {"a": 1, ..o}', 'fn h(..r, a) {\n    return a\n}', 'fn h(a, ..r, ..q) {\n    return a\n}',
              'print(g(xs.. ..))', 'print(g(..xs..))', '[a, ..r..] := xs', 'x := [xs....]', 'for [i, ..v] in xs {\n    print(v)\n}', 'for ..v in xs {\n    print(v)\n}', '..r := xs', 'x := ..xs', 'x := xs..', 'print(xs..)', 'return ..xs',
